@@ -540,5 +540,60 @@ example :
   refine ⟨h2.trans h1, ?_⟩
   rw [C03_discard id (fun l => l) f2 1 0 (by decide)]
   exact h2.trans h1
+/-! #### concrete instances of the frame statements -/
+
+/-- the block trie over the one-leaf tree `[3] := 65` -/
+def xP0 : Trie := Trie.open (root id (.leaf 1 [3] [65])) (.leaf 1 [3] [65]) 1
+/-- the parent after it moved on: `[5] := 70` inserted -/
+def xPmoved : Trie := (xP0.insert id [5] [70]).1
+/-- a child opened on `xP0` that deleted `[3]` and inserted `[4] := 66` (two changes, one of them a delete) -/
+def xChild : Trie := (((xP0.delete id [3]).1).insert id [4] [66]).1
+
+/-- non-vacuity of `C03_stale_rejected`: the parent moved (inserted `[5]`) after the child was opened -/
+example : ∃ r, (Forest.mk [(0, 0, xPmoved), (1, 0, xChild)]).step id (fun l => l) (.merge 1 false)
+      = (Forest.mk [(0, 0, xPmoved), (1, 0, xChild)], r) ∧ (match r with | .stale => True | _ => False) := by
+  apply C03_stale_rejected id (fun l => l) _ 1 0 0 xChild xPmoved false (by decide) rfl rfl
+  · decide
+  · decide
+
+/-- non-vacuity of `C03_merge_publishes`: the child with a delete and an insert is merged into the parent it started from -/
+example : ∃ p', ((Forest.mk [(0, 0, xP0), (1, 0, xChild)]).step id (fun l => l) (.merge 1 true)).1.find 0 = some (0, p') ∧
+    p'.root = xChild.root ∧ p'.tree = xChild.tree ∧
+    ((Forest.mk [(0, 0, xP0), (1, 0, xChild)]).step id (fun l => l) (.merge 1 true)).1.find 1 = some (0, xChild) := by
+  apply C03_merge_publishes id (fun l => l) _ 1 0 0 xChild xP0 (by decide) (by decide) rfl rfl
+  · decide
+  · decide
+/-- non-vacuity of `child_ops_read_through`: a child opened (empty level) over the parent's level, which alone holds the
+    leaf `[3] := 65`; the child has written nothing, so its lookup of `[3]` reads that node through the level below -/
+example :
+    let below : Bytes → Option Bytes := fun k =>
+      if k = Ref.key id ⟨[], .leaf 1 [3] [65]⟩ then some (Ref.encode id ⟨[], .leaf 1 [3] [65]⟩) else none
+    lookupS (shapesOf (fun _ => some (.leaf 1 [3] [65])) (levelGet ((Trie.open [] (.leaf 1 [3] [65]) 1).applyEvents id []) below))
+      1 (okey id (.leaf 1 [3] [65]) []) [3] = .ok (lookup (.leaf 1 [3] [65]) [3]) := by
+  intro below
+  exact (child_ops_read_through id (fun _ => some (.leaf 1 [3] [65])) below (.leaf 1 [3] [65]) (.leaf 1 [3] [65])
+    (Trie.open [] (.leaf 1 [3] [65]) 1) 1 [] ⟨rfl, rfl⟩ rfl
+    (by intro r hr; simp [refs] at hr; subst hr; simp [below])
+    (Or.inr (by simp [WFn])) (RoundEvents.nil _)
+    (by intro a c ha hc _
+        simp [refs, eventRefs] at ha hc
+        rw [ha, hc])
+    (by intro r hr; simp [refs] at hr; subst hr; rfl) 1 (by simp [height]) [] [3]).2.2
+
+/-- the table decoder of `xExt`: the stored bytes of its four nodes are pairwise different -/
+def xDec (bs : Bytes) : Option Shape :=
+  ((refs xExt []).find? (fun r => r.encode id == bs)).bind (fun r => shapeOf id r.t r.pos)
+
+/-- non-vacuity of `storeOps_refine` on a store holding the four nodes of `xExt`: the lookup of `[1,3]` crosses the
+    extension and the branch, every node read through `get` -/
+example : lookupS (shapesOf xDec (fun k => ((refs xExt []).find? (fun r => r.key id == k)).map (fun r => r.encode id)))
+      3 (okey id xExt []) [1, 3] = .ok (some [66]) := by
+  have h := (storeOps_refine id xDec (fun k => ((refs xExt []).find? (fun r => r.key id == k)).map (fun r => r.encode id))
+    xExt 3 ?_ ?_ (by decide) 0 [] [1, 3]).2.2
+  · rw [h]; exact congrArg SRes.ok (by decide)
+  · intro r hr
+    rcases xExt_refs r hr with h | h | h | h <;> subst h <;> rfl
+  · intro r hr
+    rcases xExt_refs r hr with h | h | h | h <;> subst h <;> rfl
 
 end Verif.Props.C03
